@@ -385,6 +385,22 @@ def step6492 (a : Acc) (caName : String) (flip : Bool) (obs : Json) : Acc :=
     (if !(chgOutside chg [s!"cas:{caName}", s!"objects:{caName}.json", "log:cas", "log:pubd_objects",
           s!"status:{caName}/children-{sender}.json", s!"pub:{caName}", s!"status:{caName}/repos-main.json"]).isEmpty
       then ["scope_of_accepted"] else []) ++
+    -- "obtain … certificates … within its entitlement": every certificate in the reply that the CA did not
+    -- hold before the request (issued while processing it, e.g. by the automatic un-suspension) carries
+    -- only resources the sender is entitled to
+    (let rp := jpath obs ["reply", "pl"]
+     let ent := jatoms (jpath st ["reg", caName, sender, "res"])
+     let beyond (r : Json) : Bool := !((jatoms r).all fun x => ent.contains x)
+     if !replied then [] else
+     if jstr (jget rp "t") == "listresp" then
+       if (jarr (jget rp "classes")).any fun c => (jarr (jget c "certs")).any fun ce =>
+            match jarr ce with
+            | [_, r, f] => (jbool? f).getD false && beyond r
+            | _ => false
+       then ["scope_within_entitlement"] else []
+     else if jstr (jget rp "t") == "issueresp" then
+       if (jbool? (jget rp "fresh")).getD false && beyond (jget rp "res") then ["scope_within_entitlement"] else []
+     else []) ++
     -- the records of the other children of this CA, and all other CAs' registrations, are untouched
     (let st' := jget obs "st"
      if jisNull st' then [] else
